@@ -692,6 +692,14 @@ class Body:
             return []
         return [self.def_term(bi, si, rv, 0) for (bi, si, rv, lhs) in self.defs().get(t[2], ()) if len(lhs) == 1 and not self.blocks[bi]["cl"]]
 
+    def root_type(self, t):
+        """type of the variable/parameter at the root of a place-like term ('' when unknown)"""
+        while t[0] in ("ref", "deref", "field", "cast", "downcast", "index"):
+            t = t[1]
+        if t[0] in ("var", "param") and len(t) > 2 and isinstance(t[2], int) and t[2] < len(self.locals):
+            return self.locals[t[2]]
+        return ""
+
     def switch_term(self, bi, expand_vars=False):
         t = self.blocks[bi]["t"]
         assert t["k"] == "switch"
